@@ -230,7 +230,7 @@ func validate(c *mc.Ctx, class func(base string) string, box orb.Bound, got orb.
 
 func main() {
 	r := ev.New("C16", "exploration")
-	r.Rule = "every simple closed ring (exact simplicity test) of 3..N vertices on the 5x5 integer grid whose boundary meets the open box, in the winding it is given with the matching orientation argument (both windings occur as different vertex lists), against the integer box [1,3]^2 (vertices and edges on the box boundary and corners) and against a general-position box; polygons with one or two interior holes and multi-polygons from a catalogue; every contiguous sub-path of each ring that contains all of the ring's contact with the box, fed as an open ring; non-trivial = the ring has vertices both inside and outside the closed box"
+	r.Rule = "every simple closed ring (exact simplicity test) of 3..N vertices on the 5x5 integer grid whose boundary meets the open box, in the winding it is given with the matching orientation argument (both windings occur as different vertex lists), against the integer box [1,3]^2 (vertices and edges on the box boundary and corners) and against three general-position boxes (one roughly square, one taller than wide, one wider than tall); polygons with one or two interior holes and multi-polygons from a catalogue; every contiguous sub-path of each ring that contains all of the ring's contact with the box, fed as an open ring; non-trivial = the ring has vertices both inside and outside the closed box"
 	r.Assume = []string{
 		"region equality is decided on the 81-point lattice ((77i+22)/154,(77j+14)/154) restricted to the open box (never on a line through two grid points), with exact integer even-odd for the original ring and against plain clip.Ring",
 		"hole winding in the result is not constrained, only outer rings",
@@ -239,9 +239,12 @@ func main() {
 	ib := boxI{1, 1, 3, 3}
 	ibox := orb.Bound{Min: orb.Point{1, 1}, Max: orb.Point{3, 3}}
 	gbox := orb.Bound{Min: orb.Point{1.3127, 1.1533}, Max: orb.Point{2.9181, 2.5419}}
+	tallBox := orb.Bound{Min: orb.Point{1.6127, 0.6533}, Max: orb.Point{2.4181, 3.4419}} // taller than wide
+	wideBox := orb.Bound{Min: orb.Point{0.6213, 1.6127}, Max: orb.Point{3.4719, 2.4181}} // wider than tall
 	dumpKeys := os.Getenv("C16_DUMP_KEYS") != ""
 	var keyLog []string
-	ringCase := func(c *mc.Ctx, n int, general bool) {
+	ringCase := func(c *mc.Ctx, n int, gb *orb.Bound) {
+		general := gb != nil
 		ring := make(orb.Ring, 0, n+1)
 		ir := make([]ip, n)
 		for i := 0; i < n; i++ {
@@ -255,7 +258,7 @@ func main() {
 		}
 		box := ibox
 		if general {
-			box = gbox
+			box = *gb
 		}
 		// boundary must meet the open box
 		meets := false
@@ -342,7 +345,7 @@ func main() {
 	maxN := ev.Pick(r, 4, 5)
 	for n := 3; n <= maxN; n++ {
 		n := n
-		st := r.Explore(fmt.Sprintf("rings-%d-integer-box", n), fmt.Sprintf("box [1,3]^2 x all simple rings of %d grid vertices meeting the open box", n), mc.Opts{MaxDev: -1, Split: 2, MaxFails: 2000000, StopAfter: 1 << 30}, func(c *mc.Ctx) { ringCase(c, n, false) })
+		st := r.Explore(fmt.Sprintf("rings-%d-integer-box", n), fmt.Sprintf("box [1,3]^2 x all simple rings of %d grid vertices meeting the open box", n), mc.Opts{MaxDev: -1, Split: 2, MaxFails: 2000000, StopAfter: 1 << 30}, func(c *mc.Ctx) { ringCase(c, n, nil) })
 		if dumpKeys {
 			for _, f := range st.Fails {
 				if strings.HasPrefix(f.Class, "smartclip:") {
@@ -353,7 +356,10 @@ func main() {
 				}
 			}
 		}
-		r.Explore(fmt.Sprintf("rings-%d-general-box", n), fmt.Sprintf("general-position box %v x all simple rings of %d grid vertices meeting the open box", gbox, n), mc.Opts{MaxDev: -1, Split: 2}, func(c *mc.Ctx) { ringCase(c, n, true) })
+		for bi, gb := range []orb.Bound{gbox, tallBox, wideBox} {
+			gb := gb
+			r.Explore(fmt.Sprintf("rings-%d-general-box-%s", n, []string{"a", "tall", "wide"}[bi]), fmt.Sprintf("general-position box %v x all simple rings of %d grid vertices meeting the open box", gb, n), mc.Opts{MaxDev: -1, Split: 2}, func(c *mc.Ctx) { ringCase(c, n, &gb) })
+		}
 	}
 	if dumpKeys {
 		sort.Strings(keyLog)
